@@ -15,6 +15,7 @@ import Mitx.Driver.Sampling
 import Mitx.Driver.Domain
 import Mitx.Driver.Schema
 import Mitx.Driver.Globals
+import Mitx.Driver.Answers
 open Lean
 
 def dispatch (op : String) (j : Json) : Except String Json :=
@@ -24,6 +25,7 @@ def dispatch (op : String) (j : Json) : Except String Json :=
   | "parse" => Drv.parse j
   | "call_hist" => Drv.callHist j
   | "coerce" => Drv.coerceOp j
+  | "validate_answers" => Drv.validateAnswers j
   | "np_hist" => Drv.npHist j
   | "string_clean" => Drv.stringClean j
   | "string_check" => Drv.stringCheck j
